@@ -7,11 +7,22 @@ package c16
 import (
 	"fmt"
 	"math/big"
+	"math/rand/v2"
+	"strings"
 
 	"github.com/consensys/gnark-crypto/ecc"
+	"github.com/consensys/gnark-crypto/ecc/bn254"
+	"github.com/consensys/gnark/backend"
+	"github.com/consensys/gnark/backend/groth16"
+	"github.com/consensys/gnark/constraint"
 	"github.com/consensys/gnark/constraint/solver"
 	"github.com/consensys/gnark/frontend"
+	"github.com/consensys/gnark/frontend/cs/r1cs"
 	"github.com/consensys/gnark/std/algebra/native/twistededwards"
+	"github.com/consensys/gnark/std/math/emulated"
+	"github.com/consensys/gnark/std/algebra/emulated/sw_bn254"
+	"github.com/consensys/gnark/std/signature/ecdsa"
+	"github.com/consensys/gnark/std/signature/eddsa"
 
 	"github.com/consensys/gnark/verifharness/internal/vcore"
 )
@@ -367,6 +378,8 @@ func advEmu(r *vcore.Run, curve, op string, complete bool) {
 				)
 				if d.glv {
 					lies = append(lies, forgeHighLimbs(d, P, s, tOther))
+				} else {
+					lies = append(lies, forgeHighLimbsFake(d, P, s, rng))
 				}
 			} else {
 				hDec, hSign := hintByName("sw_emulated.decomposeScalarG1Subscalars"), hintByName("sw_emulated.decomposeScalarG1Signs")
@@ -524,6 +537,291 @@ func forgeHighLimbs(d *emuCurveDesc, P wpt, s, t *big.Int) lie {
 	}}
 }
 
+// forgeHighLimbsFake is the same cheat against scalarMulFakeGLV (curves without
+// endomorphism): the point relation [s1]Q + [±s2]R = 0 is checked on the low
+// (bits(r)+1)/2 bits of s1, s2; the scalar relation s1 + s*(±s2) = 0 (mod r) is
+// repaired in the bits above.  The room is only 128 bits per sub-scalar here, so
+// the adversary tries several target scalars t until the repair fits.
+func forgeHighLimbsFake(d *emuCurveDesc, P wpt, s *big.Int, rng *rand.Rand) lie {
+	name := "forge:half-GCD-of-t-in-the-low-bits+relation-repaired-in-the-high-bits,result=[t]P"
+	c := d.c
+	var tFound, s1, s2 *big.Int
+	if new(big.Int).Mod(s, c.R).Sign() != 0 { // a zero scalar is replaced before the hint: nothing to forge
+		for tries := 0; tries < 400 && tFound == nil; tries++ {
+			t := randNonzero(rng, c.R)
+			if a, b, ok := fakeGLVRepair(d, s, t); ok {
+				tFound, s1, s2 = t, a, b
+			}
+		}
+	}
+	return lie{name, func(calls *int64) []solver.Option {
+		if tFound == nil {
+			// no fitting repair among the candidates: the lie degenerates to a refused hint
+			return []solver.Option{ov(calls, "sw_emulated.halfGCD", func(m *big.Int, in, out []*big.Int) error {
+				return fmt.Errorf("adversary: no target scalar with a fitting repair among 400 candidates")
+			})}
+		}
+		target := c.mul(P, tFound)
+		return []solver.Option{
+			ov(calls, "sw_emulated.halfGCD", emuLie(hintByName("sw_emulated.halfGCD"), true, true, constOut(s1, s2))),
+			ov(calls, "sw_emulated.halfGCDSigns", func(m *big.Int, in, out []*big.Int) error {
+				return hintByName("sw_emulated.halfGCDSigns")(m, withFirstInput(in, tFound), out)
+			}),
+			ov(calls, "sw_emulated.scalarMulHint", emuLie(hintByName("sw_emulated.scalarMulHint"), false, true, func(io emuIO, h []*big.Int) ([]*big.Int, bool) {
+				x, y := target.xy()
+				return []*big.Int{x, y}, true
+			}))}
+	}}
+}
+
+// callEmuHint calls a registered emulated-convention hint on non-native inputs.
+func callEmuHint(d *emuCurveDesc, hint string, nativeOut bool, nout int, vals ...*big.Int) []*big.Int {
+	nl := d.capBit / 64
+	in := []*big.Int{bi(64), bi(int64(nl))}
+	in = append(in, limbsOf(d.c.R, nl)...)
+	in = append(in, bi(int64(len(vals))))
+	for _, v := range vals {
+		in = append(in, bi(int64(nl)))
+		in = append(in, limbsOf(v, nl)...)
+	}
+	n := nout * nl
+	if nativeOut {
+		n = nout
+	}
+	out := make([]*big.Int, n)
+	for i := range out {
+		out[i] = new(big.Int)
+	}
+	if err := hintByName(hint)(nativeBN254, in, out); err != nil {
+		return nil
+	}
+	if nativeOut {
+		return out
+	}
+	var res []*big.Int
+	for i := 0; i < nout; i++ {
+		res = append(res, recompose(out[i*nl:(i+1)*nl], 64))
+	}
+	return res
+}
+
+// fakeGLVRepair returns sub-scalars (s1, s2) whose low halves are the honest
+// half-GCD of t and which satisfy s1 + s*(±s2) = 0 (mod r) for the real s,
+// when such a pair fits the limbs.
+func fakeGLVRepair(d *emuCurveDesc, s, t *big.Int) (*big.Int, *big.Int, bool) {
+	r := d.c.R
+	sReal := new(big.Int).Mod(s, r)
+	if sReal.Sign() == 0 {
+		return nil, nil, false
+	}
+	nbits := uint((r.BitLen() + 1) / 2)
+	limit := new(big.Int).Lsh(bi(1), uint(d.capBit)-nbits)
+	pow := new(big.Int).ModInverse(new(big.Int).Lsh(bi(1), nbits), r)
+	l := callEmuHint(d, "sw_emulated.halfGCD", false, 2, t)
+	sg := callEmuHint(d, "sw_emulated.halfGCDSigns", true, 1, t)
+	if l == nil || sg == nil {
+		return nil, nil, false
+	}
+	sigma := bi(1)
+	if sg[0].Sign() != 0 {
+		sigma = bi(-1)
+	}
+	ss := new(big.Int).Mul(sigma, sReal)
+	ss.Mod(ss, r)
+	// c' = -(l1 + σ s l2) / 2^nbits
+	cdef := new(big.Int).Mul(ss, l[1])
+	cdef.Add(cdef, l[0]).Neg(cdef).Mul(cdef, pow).Mod(cdef, r)
+	var lat ecc.Lattice
+	ecc.PrecomputeLattice(r, ss, &lat)
+	k := ecc.SplitScalar(cdef, &lat)
+	for _, dv := range [][2]int64{{0, 0}, {1, 0}, {-1, 0}, {0, 1}, {0, -1}, {1, 1}, {-1, -1}, {1, -1}, {-1, 1}} {
+		a1 := new(big.Int).Set(&k[0])
+		a2 := new(big.Int).Set(&k[1])
+		a1.Add(a1, new(big.Int).Mul(bi(dv[0]), &lat.V1[0])).Add(a1, new(big.Int).Mul(bi(dv[1]), &lat.V2[0]))
+		a2.Add(a2, new(big.Int).Mul(bi(dv[0]), &lat.V1[1])).Add(a2, new(big.Int).Mul(bi(dv[1]), &lat.V2[1]))
+		if a1.Sign() < 0 || a2.Sign() < 0 || a1.Cmp(limit) >= 0 || a2.Cmp(limit) >= 0 {
+			continue
+		}
+		chk := new(big.Int).Add(a1, new(big.Int).Mul(ss, a2))
+		if chk.Mod(chk, r).Cmp(cdef) != 0 {
+			continue
+		}
+		return new(big.Int).Add(l[0], new(big.Int).Lsh(a1, nbits)), new(big.Int).Add(l[1], new(big.Int).Lsh(a2, nbits)), true
+	}
+	return nil, nil, false
+}
+
+// advEcdsaForge is the end-to-end use of the cheat: a signature on a message
+// for a public key whose secret nobody used, accepted by the compiled
+// ecdsa.Verify circuit (curves whose scalar multiplication is scalarMulFakeGLV).
+func advEcdsaForge(r *vcore.Run) {
+	var d *emuCurveDesc
+	for _, x := range emuCurves() {
+		if x.c.Name == "P-256" {
+			d = x
+		}
+	}
+	c := d.c
+	n := c.R
+	rng := r.Rand("adv/ecdsa-forge")
+	t := &advTarget{name: "ecdsa.Verify/P-256/r1cs", field: nativeBN254, builder: r1cs.NewBuilder[constraint.U64], circuit: &ecdsaCircuit[emulated.P256Fp, emulated.P256Fr]{}}
+	if err := t.build(); err != nil {
+		r.Inconclusive("adv:compile:" + t.name + ":" + firstLine(err.Error()))
+		return
+	}
+	r.Count("adv.compiled-systems", 1)
+	mkAsg := func(q wpt, e, rr, ss *big.Int) frontend.Circuit {
+		ee, _ := scalarElem[emulated.P256Fr](e)
+		re, _ := scalarElem[emulated.P256Fr](rr)
+		se, _ := scalarElem[emulated.P256Fr](ss)
+		return &ecdsaCircuit[emulated.P256Fp, emulated.P256Fr]{Sig: ecdsa.Signature[emulated.P256Fr]{R: re, S: se}, Msg: ee,
+			Pub: ecdsa.PublicKey[emulated.P256Fp, emulated.P256Fr]{X: emulated.ValueOf[emulated.P256Fp](q.X), Y: emulated.ValueOf[emulated.P256Fp](q.Y)}}
+	}
+	solve := func(asg frontend.Circuit, opts []solver.Option) error {
+		w, err := frontend.NewWitness(asg, t.field)
+		if err != nil {
+			return fmt.Errorf("harness: %w", err)
+		}
+		var serr error
+		if p, st := vcore.Catch(func() { _, serr = t.ccs.Solve(w, opts...) }); p != nil {
+			return fmt.Errorf("panic in Solve: %v %s", p, st)
+		}
+		return serr
+	}
+	// honest: a genuine signature solves, a wrong one does not
+	sk := randNonzero(rng, n)
+	Q := c.mul(c.G(), sk)
+	e := randNonzero(rng, n)
+	var gr, gs *big.Int
+	for ok := false; !ok; {
+		gr, gs, ok = ecdsaSignRef(c, sk, e, randNonzero(rng, n))
+	}
+	r.Eval("adv|ecdsa-forge|honest-valid", true)
+	if err := solve(mkAsg(Q, e, gr, gs), nil); err != nil {
+		r.Violation("adv/ecdsa.Verify/P-256/honest-solve-fails", "compiled ecdsa.Verify rejects a genuine signature: "+firstLine(err.Error()),
+			map[string]any{"Q": Q.String(), "e": e.String(), "r": gr.String(), "s": gs.String()})
+	} else {
+		r.Count("adv.honest.solved-and-correct", 1)
+	}
+	r.Eval("adv|ecdsa-forge|honest-invalid", true)
+	if err := solve(mkAsg(Q, new(big.Int).Add(e, bi(1)), gr, gs), nil); err == nil {
+		r.Violation("adv/ecdsa.Verify/P-256/honest-hints-accept-invalid-signature", "compiled ecdsa.Verify accepts a wrong message with honest hints", map[string]any{"Q": Q.String()})
+	} else {
+		r.Count("adv.honest.rejected-invalid-signature", 1)
+	}
+	// forgery for a fresh key (its secret is drawn and thrown away)
+	Q2 := c.mul(c.G(), randNonzero(rng, n))
+	nForge := r.Pick(1, 3)
+	for f := 0; f < nForge; f++ {
+		var t1, t2, fr, fs, u1, u2, a1, a2, b1, b2 *big.Int
+		found := false
+		attempts := 0
+		for outer := 0; outer < 40 && !found; outer++ {
+			t1, t2 = randNonzero(rng, n), randNonzero(rng, n)
+			q := c.add(c.mul(c.G(), t1), c.mul(Q2, t2))
+			if q.Inf || q.X.Cmp(n) >= 0 {
+				continue
+			}
+			fr = new(big.Int).Set(q.X)
+			for inner := 0; inner < 200 && !found; inner++ {
+				attempts++
+				fs = randNonzero(rng, n)
+				si := new(big.Int).ModInverse(fs, n)
+				u1 = new(big.Int).Mul(e, si)
+				u1.Mod(u1, n)
+				u2 = new(big.Int).Mul(fr, si)
+				u2.Mod(u2, n)
+				var ok1, ok2 bool
+				if a1, a2, ok1 = fakeGLVRepair(d, u1, t1); !ok1 {
+					continue
+				}
+				if b1, b2, ok2 = fakeGLVRepair(d, u2, t2); !ok2 {
+					continue
+				}
+				found = true
+			}
+		}
+		r.Eval(fmt.Sprintf("adv|ecdsa-forge|%d", f), true)
+		if !found {
+			r.Inconclusive("adv:ecdsa-forge:no-fitting-repair-found")
+			continue
+		}
+		r.Count("adv.ecdsa-forge.search-attempts", attempts)
+		nativeOK := ecdsaVerifyRef(c, Q2, e, fr, fs)
+		var calls int64
+		pick := func(v *big.Int) int {
+			switch {
+			case v.Cmp(u1) == 0:
+				return 1
+			case v.Cmp(u2) == 0:
+				return 2
+			}
+			return 0
+		}
+		hDec, hSign, hMul := hintByName("sw_emulated.halfGCD"), hintByName("sw_emulated.halfGCDSigns"), hintByName("sw_emulated.scalarMulHint")
+		opts := []solver.Option{
+			ov(&calls, "sw_emulated.halfGCD", func(m *big.Int, in, out []*big.Int) error {
+				io := parseEmuInputs(in, true)
+				switch pick(new(big.Int).Mod(io.in[0], n)) {
+				case 1:
+					io.writeOut(out, []*big.Int{a1, a2})
+				case 2:
+					io.writeOut(out, []*big.Int{b1, b2})
+				default:
+					return hDec(m, in, out)
+				}
+				return nil
+			}),
+			ov(&calls, "sw_emulated.halfGCDSigns", func(m *big.Int, in, out []*big.Int) error {
+				io := parseEmuInputs(in, true)
+				switch pick(new(big.Int).Mod(io.in[0], n)) {
+				case 1:
+					return hSign(m, withFirstInput(in, t1), out)
+				case 2:
+					return hSign(m, withFirstInput(in, t2), out)
+				}
+				return hSign(m, in, out)
+			}),
+			ov(&calls, "sw_emulated.scalarMulHint", func(m *big.Int, in, out []*big.Int) error {
+				io := parseEmuInputs(in, false)
+				nl := io.nbLimbs
+				sc := recompose(io.in[2*nl:], uint(io.nbBits))
+				var p wpt
+				switch pick(new(big.Int).Mod(sc, n)) {
+				case 1:
+					p = c.mul(c.G(), t1)
+				case 2:
+					p = c.mul(Q2, t2)
+				default:
+					return hMul(m, in, out)
+				}
+				io.writeOut(out, []*big.Int{p.X, p.Y})
+				return nil
+			}),
+		}
+		err := solve(mkAsg(Q2, e, fr, fs), opts)
+		rep := map[string]any{"target": t.name, "public_key": Q2.String(), "msg_hash": e.String(), "forged_r": fr.String(), "forged_s": fs.String(),
+			"native_verifier_accepts": nativeOK, "t1": t1.String(), "t2": t2.String(), "u1=e/s": u1.String(), "u2=r/s": u2.String(),
+			"lying_halfGCD_outputs_for_u1": bigStrs([]*big.Int{a1, a2}), "lying_halfGCD_outputs_for_u2": bigStrs([]*big.Int{b1, b2}), "hint_calls_intercepted": calls}
+		r.Count("adv.hint-calls-intercepted", int(calls))
+		switch {
+		case nativeOK:
+			r.Inconclusive("adv:ecdsa-forge:random-signature-happens-to-verify")
+		case err != nil && strings.HasPrefix(err.Error(), "harness:"):
+			r.Inconclusive("adv:" + firstLine(err.Error()))
+		case err != nil:
+			r.Count("adv.lies.solve-failed", 1)
+			r.Count("adv.ecdsa-forge.rejected", 1)
+			r.SampleClass("adv/ecdsa-forge/rejected", map[string]any{"solver_said": firstLine(err.Error())})
+		default:
+			r.Count("adv.lies.ACCEPTED-WITH-WRONG-RESULT", 1)
+			r.Count("adv.ecdsa-forge.ACCEPTED", 1)
+			r.Violation("adv/ecdsa.Verify/P-256/FORGED-SIGNATURE-ACCEPTED",
+				"the compiled ecdsa.Verify circuit (P-256) is satisfiable, under lying halfGCD / scalarMulHint outputs, for a signature made without the secret key that the native verifier rejects", rep)
+		}
+	}
+}
+
 // ------------------------------------------------------------------ native 2-chain G1
 
 func advNativeSW(r *vcore.Run) {
@@ -618,4 +916,340 @@ func advNativeSW(r *vcore.Run) {
 			}
 		}
 	}
+}
+
+// ------------------------------------------------------------------ end to end: a Groth16 proof of a false statement
+
+type tedClaimCircuit struct {
+	P   twistededwards.Point `gnark:",public"`
+	S   frontend.Variable    `gnark:",public"`
+	R   twistededwards.Point `gnark:",public"`
+	cfg *tedCfg
+}
+
+func (c *tedClaimCircuit) Define(api frontend.API) error {
+	cv, err := twistededwards.NewEdCurve(api, c.cfg.id)
+	if err != nil {
+		return err
+	}
+	res := cv.ScalarMul(c.P, c.S)
+	api.AssertIsEqual(res.X, c.R.X)
+	api.AssertIsEqual(res.Y, c.R.Y)
+	return nil
+}
+
+// advTedGroth16 asks the real prover for a proof of "[s]P = -P" (false for the
+// random s used) with the lying hints, and the real verifier for its opinion.
+func advTedGroth16(r *vcore.Run) {
+	var d *tedDesc
+	for _, x := range tedCurves() {
+		if x.Name == "BN254" {
+			d = x
+		}
+	}
+	c := d.c
+	rng := r.Rand("adv/ted-groth16")
+	cfg := &tedCfg{id: d.ID}
+	ccs, err := frontend.Compile(c.P, r1cs.NewBuilder[constraint.U64], &tedClaimCircuit{cfg: cfg})
+	if err != nil {
+		r.Inconclusive("adv:compile:ted-claim")
+		return
+	}
+	pk, vk, err := groth16.Setup(ccs)
+	if err != nil {
+		r.Inconclusive("adv:setup:ted-claim")
+		return
+	}
+	B := c.base()
+	P, _ := c.mul(B, randNonzero(rng, c.Order))
+	s := randNonzero(rng, c.Order)
+	truth, _ := c.mul(P, s)
+	negP := c.neg(P)
+	ordInv := new(big.Int).ModInverse(c.Order, c.P)
+	prove := func(claim epoint, opts ...solver.Option) (verified bool, perr error) {
+		asg := &tedClaimCircuit{cfg: cfg, P: twistededwards.Point{X: P.X, Y: P.Y}, S: s, R: twistededwards.Point{X: claim.X, Y: claim.Y}}
+		w, err := frontend.NewWitness(asg, c.P)
+		if err != nil {
+			return false, fmt.Errorf("harness: %w", err)
+		}
+		var proof groth16.Proof
+		if p, _ := vcore.Catch(func() { proof, perr = groth16.Prove(ccs, pk, w, backend.WithSolverOptions(opts...)) }); p != nil {
+			return false, fmt.Errorf("prover panicked: %v", p)
+		}
+		if perr != nil {
+			return false, perr
+		}
+		pw, _ := w.Public()
+		return groth16.Verify(proof, vk, pw) == nil, nil
+	}
+	r.Eval("adv|ted-groth16|honest-true-claim", true)
+	if ok, err := prove(truth); err != nil || !ok {
+		r.Inconclusive("adv:ted-groth16:honest-proof-failed")
+		return
+	}
+	r.Count("adv.groth16.true-statement-proved-and-verified", 1)
+	r.Eval("adv|ted-groth16|honest-false-claim", true)
+	if ok, err := prove(negP); err == nil && ok {
+		r.Violation("adv/twistededwards.ScalarMul/groth16/honest-prover-proves-false-statement", "honest hints prove [s]P=-P", map[string]any{"P": P.String(), "s": s.String()})
+		return
+	}
+	r.Count("adv.groth16.false-statement-refused-with-honest-hints", 1)
+	var calls int64
+	ok, perr := prove(negP,
+		ov(&calls, "twistededwards.halfGCD", func(m *big.Int, in, out []*big.Int) error {
+			out[0].SetUint64(1)
+			out[1].SetUint64(1)
+			out[2].SetUint64(0)
+			k := new(big.Int).Add(in[0], bi(1))
+			out[3].Set(k.Mul(k, ordInv).Mod(k, m))
+			return nil
+		}),
+		ov(&calls, "twistededwards.scalarMulHint", func(m *big.Int, in, out []*big.Int) error {
+			out[0].Set(negP.X)
+			out[1].Set(negP.Y)
+			return nil
+		}))
+	r.Eval("adv|ted-groth16|lying-false-claim", true)
+	r.Count("adv.hint-calls-intercepted", int(calls))
+	rep := map[string]any{"circuit": "public P, s, R; asserts twistededwards.ScalarMul(P,s) == R (Baby Jubjub over BN254)", "P": P.String(), "s": s.String(), "claimed_R": negP.String(),
+		"true_[s]P": truth.String(), "lie": "halfGCD=(1,1,0,k=(1+s)/order mod p), scalarMulHint=-P", "backend": "groth16 Setup/Prove/Verify"}
+	switch {
+	case perr != nil:
+		r.Count("adv.lies.solve-failed", 1)
+		r.Count("adv.groth16.false-statement-refused-under-lying-hints", 1)
+	case ok:
+		r.Count("adv.groth16.FALSE-STATEMENT-PROOF-VERIFIES", 1)
+		r.Violation("adv/twistededwards.ScalarMul/groth16-proof-of-a-false-statement-verifies",
+			"groth16.Verify accepts a proof, made by groth16.Prove with lying hint functions, of the false public statement [s]P = -P", rep)
+	default:
+		r.Count("adv.groth16.proof-made-but-rejected", 1)
+	}
+}
+
+// ------------------------------------------------------------------ pairing residue-witness hint (thorough)
+
+func callEmuHintMod(mod *big.Int, nl int, hint string, nout int, vals ...*big.Int) []*big.Int {
+	in := []*big.Int{bi(64), bi(int64(nl))}
+	in = append(in, limbsOf(mod, nl)...)
+	in = append(in, bi(int64(len(vals))))
+	for _, v := range vals {
+		in = append(in, bi(int64(nl)))
+		in = append(in, limbsOf(v, nl)...)
+	}
+	out := make([]*big.Int, nout*nl)
+	for i := range out {
+		out[i] = new(big.Int)
+	}
+	if err := hintByName(hint)(nativeBN254, in, out); err != nil {
+		return nil
+	}
+	var res []*big.Int
+	for i := 0; i < nout; i++ {
+		res = append(res, recompose(out[i*nl:(i+1)*nl], 64))
+	}
+	return res
+}
+
+func advPairing(r *vcore.Run) {
+	rng := r.Rand("adv/pairing")
+	cfg := &pairCfg{kind: "check", n: 2}
+	t := &advTarget{name: "sw_bn254.PairingCheck(n=2)/r1cs", field: nativeBN254, builder: r1cs.NewBuilder[constraint.U64], circuit: &pairCircuitbn254{cfg: cfg}}
+	if err := t.build(); err != nil {
+		r.Inconclusive("adv:compile:" + t.name + ":" + firstLine(err.Error()))
+		return
+	}
+	r.Count("adv.compiled-systems", 1)
+	r.Set("adv.compile_seconds."+t.name, t.compile.Seconds())
+	_, _, g1, g2 := bn254.Generators()
+	fr := bn254.ID.ScalarField()
+	fp := bn254.ID.BaseField()
+	a, b := randNonzero(rng, fr), randNonzero(rng, fr)
+	mkPts := func(second *big.Int) ([3]bn254.G1Affine, [3]bn254.G2Affine) {
+		var P [3]bn254.G1Affine
+		var Q [3]bn254.G2Affine
+		P[0].ScalarMultiplication(&g1, a)
+		Q[0].ScalarMultiplication(&g2, b)
+		P[1].ScalarMultiplication(&g1, second)
+		Q[1] = g2
+		P[2], Q[2] = g1, g2
+		return P, Q
+	}
+	ab := new(big.Int).Mul(a, b)
+	trueSecond := new(big.Int).Mod(new(big.Int).Neg(ab), fr)
+	falseSecond := new(big.Int).Mod(new(big.Int).Add(trueSecond, bi(1)), fr)
+	coords := func(P [3]bn254.G1Affine, Q [3]bn254.G2Affine) []*big.Int {
+		var v []*big.Int
+		for i := 0; i < 2; i++ {
+			v = append(v, P[i].X.BigInt(new(big.Int)), P[i].Y.BigInt(new(big.Int)))
+		}
+		for i := 0; i < 2; i++ {
+			v = append(v, Q[i].X.A0.BigInt(new(big.Int)), Q[i].X.A1.BigInt(new(big.Int)), Q[i].Y.A0.BigInt(new(big.Int)), Q[i].Y.A1.BigInt(new(big.Int)))
+		}
+		return v
+	}
+	tp, tq := mkPts(trueSecond)
+	witnessOfTrue := callEmuHintMod(fp, 4, "sw_bn254.pairingCheckHint", 18, coords(tp, tq)...)
+	hHonest := hintByName("sw_bn254.pairingCheckHint")
+	one := func() []*big.Int {
+		v := make([]*big.Int, 18)
+		for i := range v {
+			v[i] = new(big.Int)
+		}
+		v[0].SetUint64(1)
+		v[12].SetUint64(1)
+		return v
+	}
+	type st struct {
+		class  string
+		second *big.Int
+		truth  bool
+	}
+	for _, s := range []st{{"product=1", trueSecond, true}, {"product!=1", falseSecond, false}} {
+		P, Q := mkPts(s.second)
+		lies := []lie{
+			{"honest", func(calls *int64) []solver.Option { return nil }},
+			{"residue-witness:first-coefficient+1", func(calls *int64) []solver.Option {
+				return []solver.Option{ov(calls, "sw_bn254.pairingCheckHint", emuLie(hHonest, true, true, func(io emuIO, h []*big.Int) ([]*big.Int, bool) {
+					h[0] = new(big.Int).Mod(new(big.Int).Add(h[0], bi(1)), io.mod)
+					return h, true
+				}))}
+			}},
+			{"residue-witness=1,scaling=1", func(calls *int64) []solver.Option {
+				return []solver.Option{ov(calls, "sw_bn254.pairingCheckHint", emuLie(hHonest, true, true, constOut(one()...)))}
+			}},
+			{"residue-witness=0", func(calls *int64) []solver.Option {
+				z := make([]*big.Int, 18)
+				for i := range z {
+					z[i] = new(big.Int)
+				}
+				return []solver.Option{ov(calls, "sw_bn254.pairingCheckHint", emuLie(hHonest, true, true, constOut(z...)))}
+			}},
+			{"residue-witness-of-another(true)-statement", func(calls *int64) []solver.Option {
+				return []solver.Option{ov(calls, "sw_bn254.pairingCheckHint", emuLie(hHonest, true, true, func(io emuIO, h []*big.Int) ([]*big.Int, bool) {
+					if witnessOfTrue == nil {
+						return nil, false
+					}
+					return witnessOfTrue, true
+				}))}
+			}},
+			{"residue-witness=random", func(calls *int64) []solver.Option {
+				v := make([]*big.Int, 18)
+				for i := range v {
+					v[i] = randBelow(rng, fp)
+				}
+				return []solver.Option{ov(calls, "sw_bn254.pairingCheckHint", emuLie(hHonest, true, true, constOut(v...)))}
+			}},
+		}
+		for _, l := range lies {
+			if s.truth && l.name == "residue-witness-of-another(true)-statement" {
+				continue
+			}
+			asg := &pairCircuitbn254{cfg: cfg, B: 0}
+			for i := 0; i < 3; i++ {
+				asg.P[i] = sw_bn254.NewG1Affine(P[i])
+				asg.Q[i] = sw_bn254.NewG2Affine(Q[i])
+			}
+			var gt bn254.GT
+			gt.SetOne()
+			asg.X = sw_bn254.NewGTEl(gt)
+			asg.Y = sw_bn254.NewGTEl(gt)
+			var calls int64
+			w, err := frontend.NewWitness(asg, t.field)
+			if err != nil {
+				r.Inconclusive("adv:pairing-witness")
+				continue
+			}
+			var serr error
+			if p, _ := vcore.Catch(func() { _, serr = t.ccs.Solve(w, l.overrides(&calls)...) }); p != nil {
+				serr = fmt.Errorf("panic in Solve: %v", p)
+			}
+			r.Eval("adv|pairing|"+s.class+"|"+l.name, true)
+			r.Count("adv.hint-calls-intercepted", int(calls))
+			r.Count("adv.cases."+t.name, 1)
+			rep := map[string]any{"target": t.name, "statement": "e([a]G1,[b]G2) e([x]G1,G2) == 1", "a": a.String(), "b": b.String(), "x": s.second.String(), "statement_is_true": s.truth, "lie": l.name}
+			switch {
+			case serr == nil && s.truth:
+				if l.name == "honest" {
+					r.Count("adv.honest.solved-and-correct", 1)
+				} else {
+					r.Count("adv.lies.accepted-with-same-result", 1)
+				}
+			case serr == nil:
+				r.Count("adv.lies.ACCEPTED-WITH-WRONG-RESULT", 1)
+				r.Violation("adv/sw_bn254.PairingCheck/false-pairing-equation-accepted/"+l.name, "Solve succeeded for a pairing product different from one", rep)
+			case l.name == "honest" && s.truth:
+				rep["error"] = serr.Error()
+				r.Violation("adv/sw_bn254.PairingCheck/honest-solve-fails", "compiled PairingCheck rejects a true equation: "+firstLine(serr.Error()), rep)
+			default:
+				r.Count("adv.lies.solve-failed", 1)
+				r.Count("adv.lies.solve-failed."+t.name, 1)
+			}
+		}
+	}
+}
+
+// advCompiledSignatures: honest compiled+solved sample of the signature gadgets.
+func advCompiledSignatures(r *vcore.Run) {
+	rng := r.Rand("adv/compiled-signatures")
+	// EdDSA on Baby Jubjub
+	var td *tedDesc
+	for _, x := range tedCurves() {
+		if x.Name == "BN254" {
+			td = x
+		}
+	}
+	cfg := &tedCfg{id: td.ID}
+	if ccs, err := frontend.Compile(td.c.P, r1cs.NewBuilder[constraint.U64], &eddsaCircuit{cfg: cfg}); err == nil {
+		cases, _ := genEddsa(td, rng)
+		for _, c := range cases {
+			asg := &eddsaCircuit{cfg: cfg, Message: c.Msg, PublicKey: eddsa.PublicKey{A: twistededwards.Point{X: c.A[0], Y: c.A[1]}},
+				Signature: eddsa.Signature{R: twistededwards.Point{X: c.R[0], Y: c.R[1]}, S: c.S}}
+			w, err := frontend.NewWitness(asg, td.c.P)
+			if err != nil {
+				continue
+			}
+			_, serr := ccs.Solve(w)
+			judgeSig(r, "eddsa", "compiled|"+c.key(), c.Curve, c.Class+"(compiled)", c.WantAccept, c.InDomain, outcome{Sat: serr == nil, Err: errStr(serr)}, c.replay())
+			r.Count("compiled-and-solved.eddsa", 1)
+		}
+	}
+	// ECDSA on secp256k1
+	for _, d := range emuCurves() {
+		if d.c.Name != "secp256k1" {
+			continue
+		}
+		ccs, err := frontend.Compile(nativeBN254, r1cs.NewBuilder[constraint.U64], &ecdsaCircuit[emulated.Secp256k1Fp, emulated.Secp256k1Fr]{})
+		if err != nil {
+			r.Inconclusive("adv:compile:ecdsa-secp256k1")
+			continue
+		}
+		for _, c := range pick(rng, genEcdsa(d, rng), 8) {
+			e, ok1 := scalarElem[emulated.Secp256k1Fr](c.E)
+			rr, ok2 := scalarElem[emulated.Secp256k1Fr](c.R)
+			ss, ok3 := scalarElem[emulated.Secp256k1Fr](c.S)
+			if !ok1 || !ok2 || !ok3 {
+				continue
+			}
+			x, y := c.Q.xy()
+			asg := &ecdsaCircuit[emulated.Secp256k1Fp, emulated.Secp256k1Fr]{Sig: ecdsa.Signature[emulated.Secp256k1Fr]{R: rr, S: ss}, Msg: e,
+				Pub: ecdsa.PublicKey[emulated.Secp256k1Fp, emulated.Secp256k1Fr]{X: emulated.ValueOf[emulated.Secp256k1Fp](x), Y: emulated.ValueOf[emulated.Secp256k1Fp](y)}}
+			w, err := frontend.NewWitness(asg, nativeBN254)
+			if err != nil {
+				continue
+			}
+			var serr error
+			if p, _ := vcore.Catch(func() { _, serr = ccs.Solve(w) }); p != nil {
+				serr = fmt.Errorf("panic: %v", p)
+			}
+			judgeSig(r, "ecdsa", "compiled|"+c.key(), c.Curve, c.Class+"(compiled)", c.WantAccept, c.InDomain, outcome{Sat: serr == nil, Err: errStr(serr)}, c.replay())
+			r.Count("compiled-and-solved.ecdsa", 1)
+		}
+	}
+}
+
+func errStr(e error) string {
+	if e == nil {
+		return ""
+	}
+	return firstLine(e.Error())
 }
